@@ -20,7 +20,8 @@ LEVEL_TEXT = ('Seeded bounded exploration at run time of the real Linen and NNX 
               'input that differs by +-1e3 on ignored positions only, (iii) float64 NumPy references written from the docstrings, '
               '(iv) the other API on the same parameters; a monitor watches the decode cache between steps.'
               ' Attention cases include QK normalisation with independent LayerNorm scales.'
-              ' Round e/f: partially broadcast masks/biases over two batch dims, wrapped attention_fn (**kwargs), value depth != query depth on the nnx fused path.')
+              ' Round e/f: partially broadcast masks/biases over two batch dims, wrapped attention_fn (**kwargs), value depth != query depth on the nnx fused path.'
+              ' Round g: non-default activation_fn LSTM cells, empty sequences (seq_lengths 0), masks / biases of rank 2 and 3.')
 LEVEL_NOTE = ('Trusts vf/refs/seq.py (NumPy references), the harness-side random parameter filling (parameter tree shapes are taken '
               'from the real init via jax.eval_shape / nnx.state), jax.jit / nnx.jit used to share one compilation between the '
               'paired inputs of a case, and the vf.compat JAX aliases. The storage order of fused gate kernels (ConvLSTMCell '
